@@ -44,6 +44,7 @@ def two_line_frame():
 class Scenario:
     def __init__(self, recipe, faults):
         self.world = plugsynth.World()
+        self.env = {}
         specs = []
         for i, p in enumerate(recipe['plugins']):
             specs.append({'name': 'P%d' % i, 'roles': p['roles'], 'order': p['order'], 'state': p['state'],
@@ -59,6 +60,14 @@ class Scenario:
                 custom['PLUGIN_P%d' % i] = 'False'
             if p['state'] == 'inactive_bool':
                 custom['PLUGIN_P%d' % i] = False        # switched off with the boolean instead of the string
+            if p['state'] == 'ok' and p.get('switch') == 'bool':
+                custom['PLUGIN_P%d' % i] = True         # switched on explicitly, with the boolean
+            if p['state'] == 'ok' and p.get('switch') == 'text':
+                custom['PLUGIN_P%d' % i] = 'true'
+            if p['state'] == 'ok' and p.get('switch') == 'env':
+                self.env['DEEP_PLUGIN_P%d' % i] = 'true'    # switched on explicitly, through the environment
+            if p['state'] == 'inactive_env':
+                self.env['DEEP_PLUGIN_P%d' % i] = 'false'
         self.sent = []
 
         def responder(method, raw):
@@ -70,6 +79,9 @@ class Scenario:
                                                           Metric(name='m2', type=MetricType.GAUGE, expression='v')])])
             self.sent.append(Snapshot.FromString(raw))
             return SnapshotResponse()
+        import os
+        for k, v in self.env.items():
+            os.environ[k] = v
         self.cfg = ConfigService(custom, tracepoints=TracepointConfigService())
         self.deep = Deep(self.cfg)
         self.deep.task_handler._pool.shutdown(wait=False)
@@ -119,6 +131,9 @@ class Scenario:
                 pass
             plugsynth.drop_module(self.mname)
             lab.thread_local_store().clear()
+            import os
+            for k in self.env:
+                os.environ.pop(k, None)
 
 
 class C20(Prop):
@@ -143,7 +158,9 @@ class C20(Prop):
             'order': st.sampled_from([0, 0, 1, 2, -2, 3, None]),
             'state': st.sampled_from(['ok', 'ok', 'ok', 'ok', 'ok', 'ok', 'ok', 'missing_module', 'ok',
                                       'missing_class', 'ok', 'ctor_raises', 'ok', 'inactive', 'inactive_bool',
-                                      'is_active_raises']),
+                                      'is_active_raises', 'inactive_env']),
+            # how an active plugin's switch is spelled: not at all, or explicitly on (bool / text in code, environment)
+            'switch': st.sampled_from([None, None, None, 'bool', 'text', 'env']),
         })
         return fd({
             'plugins': st.one_of(st.lists(plugin, min_size=0, max_size=4), st.lists(plugin, min_size=2, max_size=4)),
